@@ -4,6 +4,7 @@ CONSTANT MaxRows = 2
 CONSTANT QFull = TRUE
 CONSTANT CliReadsFile = TRUE
 CONSTANT CliWritesText = TRUE
+CONSTANT CliOpensOutputFirst = FALSE
 INVARIANT MissingLeavesUntouched
 INVARIANT EditRewrites
 INVARIANT InvFrameOtherCategories
